@@ -715,6 +715,12 @@ VARIANTS["C06"] = [
       "only with compute_rms=False: the memmap is None"),
     V("rms-offset-bound-only-when-appending", "fire", VO, [("        else:\n            rms_offset = 0\n            time_offset = 0\n            t0 = 0\n", "        else:\n            time_offset = 0\n            t0 = 0\n")], ("D5",),
       "only in a fresh (non-append) run: rms_offset unbound in the worker"),
+    V("late-worker-guard-removed", "fire", VO, [("        if first_s > 0 and first_s + SAMPLES_TAPER * 2 >= _sr.ns:\n            # the batch before this one already reaches the end of the recording: nothing is left for this worker\n            return\n", "")], ("D1",),
+      "regression of F15: short recordings / many workers - an extra batch for some worker counts"),
+    V("late-worker-guard-one-taper", "fire", VO, [("        if first_s > 0 and first_s + SAMPLES_TAPER * 2 >= _sr.ns:\n", "        if first_s > 0 and first_s + SAMPLES_TAPER >= _sr.ns:\n")], ("D1",), "starts between ns - 2*TAPER and ns - TAPER still add a batch"),
+    V("late-worker-guard-first-worker-too", "fire", VO, [("        if first_s > 0 and first_s + SAMPLES_TAPER * 2 >= _sr.ns:\n", "        if first_s + SAMPLES_TAPER * 2 >= _sr.ns:\n")], ("D1",),
+      "a recording shorter than two taper margins is not written at all (worker 0 returns)"),
+    V("twin-late-worker-guard-flipped", "twin", VO, [("        if first_s > 0 and first_s + SAMPLES_TAPER * 2 >= _sr.ns:\n", "        if i_chunk > 0 and _sr.ns - first_s <= 2 * SAMPLES_TAPER:\n")], (), ""),
     V("nbatch-guard-removed", "fire", VO, [("    if NBATCH <= 2 * SAMPLES_TAPER:\n        raise ValueError(f\"nbatch must be larger than the two taper margins ({2 * SAMPLES_TAPER} samples), got {NBATCH}\")\n", "")], ("D6",),
       "regression of F13: only with nbatch <= 2048 - the batch loop never ends"),
     V("nbatch-guard-admits-zero-stride", "fire", VO, [("    if NBATCH <= 2 * SAMPLES_TAPER:\n", "    if NBATCH < 2 * SAMPLES_TAPER:\n")], ("D6",), "nbatch == 2048 exactly: stride 0"),
